@@ -178,6 +178,12 @@ pub fn run_program(b: &Value, id: u64) -> RunOut {
     };
     let mut si = 0usize;
     let mut checked_last = false;
+    // "starve_maint": keep the thread that runs maintenance parked for as long as any other
+    // thread can still make progress (fills the write channel to its bound)
+    let starve = b.get("policy").and_then(|x| x.as_str()) == Some("starve_maint");
+    let measure = b.get("overshoot").and_then(|x| x.as_bool()).unwrap_or(false);
+    let mut max_count = 0usize;
+    let mut spin: Vec<u32> = vec![0; n];
     loop {
         let st = match wait_quiescent(Duration::from_secs(20)) {
             Some(s) => s,
@@ -218,6 +224,10 @@ pub fn run_program(b: &Value, id: u64) -> RunOut {
                 }
             }
         }
+        if measure {
+            // every thread is parked: the count is exact
+            max_count = max_count.max(cache.iter().count());
+        }
         let en = enabled(&st, in_maint);
         if en.is_empty() {
             if st.iter().all(|s| *s == St::Finished) {
@@ -237,6 +247,38 @@ pub fn run_program(b: &Value, id: u64) -> RunOut {
             } else {
                 t
             }
+        } else if starve {
+            // threads outside maintenance that are not spinning on a full channel go first
+            let outside: Vec<usize> = en
+                .iter()
+                .cloned()
+                .filter(|t| match &st[*t] {
+                    St::Parked(tag) => !is_maint(tag) && *tag != "sync.lock" && spin[*t] < 6,
+                    _ => false,
+                })
+                .collect();
+            let pick = if outside.is_empty() {
+                for x in spin.iter_mut() {
+                    *x = 0;
+                }
+                // everybody else waits for room in the channel: let maintenance proceed
+                en.iter()
+                    .cloned()
+                    .find(|t| matches!(&st[*t], St::Parked(tag) if is_maint(tag) || *tag == "sync.lock"))
+                    .unwrap_or(en[0])
+            } else if let Some(r) = rng.as_mut() {
+                *r.pick(&outside)
+            } else {
+                outside[0]
+            };
+            if let St::Parked(tag) = &st[pick] {
+                if *tag == "hk.w" || *tag == "send.w" {
+                    spin[pick] += 1;
+                } else {
+                    spin[pick] = 0;
+                }
+            }
+            pick
         } else if let Some(r) = rng.as_mut() {
             *r.pick(&en)
         } else {
@@ -288,6 +330,10 @@ pub fn run_program(b: &Value, id: u64) -> RunOut {
         // after the threads have stopped: maintenance to quiescence and the final observations
         cache.sync();
         cache.sync();
+        if measure {
+            log.lock().unwrap().push(json!({"ev": "Overshoot", "count": max_count, "cap": cfg.cap, "threads": n,
+                "wlog": 384, "exact": true}));
+        }
         let mut w = World::adopt(cfg.clone(), AnyCache::S(cache), clock.clone(), base);
         let mut ev = json!({"ev": "Sync", "now": w.now()});
         ev["snap"] = w.snapshot();
